@@ -85,6 +85,8 @@ def check(P: Project, R: Report) -> None:
     real_breaks = [b for b in breaks if not any(b in list(walk_local(l)) for l in inner_loops)]
     R.ob("R3", "no break out of the wait loop", not real_breaks, f"{wrel}:{real_breaks[0].lineno if real_breaks else W.loop.lineno}", "")
     R.ob("R3", "loop condition is constant True", isinstance(W.loop, ast.While) and isinstance(W.loop.test, ast.Constant) and W.loop.test.value is True, f"{wrel}:{W.loop.lineno}", "the loop can end by its condition")
+    probs = _sendmsg.deadline_problems(W)
+    R.ob("R3", "without a matching response the call ends by the deadline: the wait runs under fail_after(timeout) and nothing moves that deadline", not probs, f"{W.send.module.rel}:{W.send.node.lineno}", "; ".join(probs))
     R.need(len(id_params) <= 1, f"returns compare the id with different terms: {sorted(id_params)}")
 
     # ------------------------------------------------------------------ R2
